@@ -47,7 +47,11 @@ extern ssize_t mpt_array_push(MPT_STRUCT(encode_array) *arr, size_t len, const v
 		    && b->_content_traits) {
 			return MPT_ERROR(BadType);
 		}
-		max = arr->_state.done + arr->_state.scratch;
+		/* append behind used data (consumed data may precede the finished part) */
+		max = b ? b->_used : 0;
+		if (max < (ssize_t) (arr->_state.done + arr->_state.scratch)) {
+			return MPT_ERROR(BadArgument);
+		}
 		if (!(dest = mpt_array_insert(&arr->_d, max, len))) {
 			return MPT_ERROR(MissingBuffer);
 		}
